@@ -5,10 +5,12 @@
 package c12
 
 import (
+	"bufio"
 	"bytes"
 	"context"
 	"encoding/json"
 	"fmt"
+	"io"
 	"strings"
 	"testing"
 	"time"
@@ -34,7 +36,8 @@ type Case struct {
 	Gen        *compose.Case `json:"gen,omitempty"`
 	Prog       string        `json:"prog"`
 	Entry      string        `json:"entry"`
-	Mode       string        `json:"mode"` // "ref" | "failat" | "cancel" | "deadline" | "failnth" | "refuse" | "cancelmid" | "procfail"
+	Dest       string        `json:"dest,omitempty"` // kind of destination writer, see dests ("" = a plain capturing io.Writer)
+	Mode       string        `json:"mode"`           // "ref" | "failat" | "cancel" | "deadline" | "failnth" | "refuse" | "cancelmid" | "procfail"
 	K          int           `json:"k,omitempty"`
 	ErrKind    string        `json:"err_kind,omitempty"`    // identity of the writer's error (fw.ErrKinds), failat only
 	InjectFile string        `json:"inject_file,omitempty"` // inject a failing expression into this file
@@ -116,13 +119,13 @@ func check(c Case) error {
 	case "cancel":
 		cctx, cancel := context.WithCancel(ctx)
 		cancel()
-		w := &fw.Capture{}
-		err := p.Run(cctx, c.Entry, w)
+		w := newSink(c.Dest)
+		err := p.Run(cctx, c.Entry, w.W)
 		if err == nil {
-			return fmt.Errorf("%s/%s: context cancelled before the call but render returned nil (wrote %d bytes)", c.Prog, c.Entry, len(w.Got))
+			return fmt.Errorf("%s/%s: context cancelled before the call but render returned nil (wrote %d bytes)", c.Prog, c.Entry, len(w.Got()))
 		}
-		if len(w.Got) != 0 {
-			return fmt.Errorf("%s/%s: cancelled render returned %v but had written %d bytes: %q", c.Prog, c.Entry, err, len(w.Got), w.Got)
+		if len(w.Got()) != 0 {
+			return fmt.Errorf("%s/%s: cancelled render returned %v but had written %d bytes: %q", c.Prog, c.Entry, err, len(w.Got()), w.Got())
 		}
 		return nil
 	case "deadline":
@@ -135,13 +138,13 @@ func check(c Case) error {
 			cctx, cancel = context.WithTimeout(ctx, -time.Second)
 		}
 		defer cancel()
-		w := &fw.Capture{}
-		err := p.Run(cctx, c.Entry, w)
+		w := newSink(c.Dest)
+		err := p.Run(cctx, c.Entry, w.W)
 		if err == nil {
-			return fmt.Errorf("%s/%s: the context's deadline had passed before the call but render returned nil (wrote %d bytes)", c.Prog, c.Entry, len(w.Got))
+			return fmt.Errorf("%s/%s: the context's deadline had passed before the call but render returned nil (wrote %d bytes)", c.Prog, c.Entry, len(w.Got()))
 		}
-		if len(w.Got) != 0 {
-			return fmt.Errorf("%s/%s: render with an expired context returned %v but had written %d bytes: %q", c.Prog, c.Entry, err, len(w.Got), w.Got)
+		if len(w.Got()) != 0 {
+			return fmt.Errorf("%s/%s: render with an expired context returned %v but had written %d bytes: %q", c.Prog, c.Entry, err, len(w.Got()), w.Got())
 		}
 		return nil
 	case "procfail":
@@ -176,37 +179,37 @@ func check(c Case) error {
 			body += hook
 		}
 		q.Files["page.vuego"] = fm + body
-		w := &fw.Capture{}
+		w := newSink(c.Dest)
 		opts := []vuego.LoadOption{vuego.WithFuncs(cat.Funcs()), vuego.WithProcessor(&rejecting{pre: c.K >= 2})}
 		for _, o := range q.Opts {
 			if o == "components" {
 				opts = append(opts, vuego.WithComponents())
 			}
 		}
-		err := q.RunOn(ctx, vuego.NewFS(q.Mount(q.FS()), opts...), c.Entry, w)
+		err := q.RunOn(ctx, vuego.NewFS(q.Mount(q.FS()), opts...), c.Entry, w.W)
 		if err == nil {
 			return fmt.Errorf("%s/%s: the registered processor rejected the document but render returned nil", c.Prog, c.Entry)
 		}
-		if len(w.Got) != 0 {
-			return fmt.Errorf("%s/%s: the registered processor rejected the document (%v) but %d bytes had already been written: %q", c.Prog, c.Entry, err, len(w.Got), w.Got)
+		if len(w.Got()) != 0 {
+			return fmt.Errorf("%s/%s: the registered processor rejected the document (%v) but %d bytes had already been written: %q", c.Prog, c.Entry, err, len(w.Got()), w.Got())
 		}
 		return nil
 	case "ref":
-		w := &fw.Capture{}
-		err := p.Run(ctx, c.Entry, w)
+		w := newSink(c.Dest)
+		err := p.Run(ctx, c.Entry, w.W)
 		if p.Fails {
 			if err == nil {
 				return fmt.Errorf("%s/%s: program must fail but render returned nil", c.Prog, c.Entry)
 			}
-			if len(w.Got) != 0 {
-				return fmt.Errorf("%s/%s: render returned error %q but had already written %d bytes: %q", c.Prog, c.Entry, err, len(w.Got), w.Got)
+			if len(w.Got()) != 0 {
+				return fmt.Errorf("%s/%s: render returned error %q but had already written %d bytes: %q", c.Prog, c.Entry, err, len(w.Got()), w.Got())
 			}
 			return nil
 		}
 		if err != nil {
 			return fmt.Errorf("%s/%s: program must succeed, got %v", c.Prog, c.Entry, err)
 		}
-		return complete(p, string(w.Got))
+		return complete(p, string(w.Got()))
 	case "failat":
 		if p.Fails {
 			return nil
@@ -301,23 +304,62 @@ func check(c Case) error {
 			body += hook
 		}
 		q.Files["page.vuego"] = fm + body
-		w := &fw.Capture{}
+		w := newSink(c.Dest)
 		opts := []vuego.LoadOption{vuego.WithFuncs(cat.Funcs()), vuego.WithFuncs(vuego.FuncMap{"cancelnow": func(v any) any { cancel(); return v }})}
 		for _, o := range q.Opts {
 			if o == "components" {
 				opts = append(opts, vuego.WithComponents())
 			}
 		}
-		err := q.RunOn(cctx, vuego.NewFS(q.Mount(q.FS()), opts...), c.Entry, w)
-		if err != nil && len(w.Got) != 0 {
-			return fmt.Errorf("%s/%s: context cancelled during evaluation: render returned %v after writing %d bytes", c.Prog, c.Entry, err, len(w.Got))
+		err := q.RunOn(cctx, vuego.NewFS(q.Mount(q.FS()), opts...), c.Entry, w.W)
+		if err != nil && len(w.Got()) != 0 {
+			return fmt.Errorf("%s/%s: context cancelled during evaluation: render returned %v after writing %d bytes", c.Prog, c.Entry, err, len(w.Got()))
 		}
 		if err == nil {
-			return complete(q, string(w.Got))
+			return complete(q, string(w.Got()))
 		}
 		return nil
 	}
 	return fmt.Errorf("unknown mode %q", c.Mode)
+}
+
+// sink is the destination writer of a case together with a way to read what reached it.
+type sink struct {
+	W   io.Writer
+	get func() []byte
+}
+
+// Got returns the bytes the render call wrote to the destination.
+func (s sink) Got() []byte { return s.get() }
+
+// dests: the kinds of destination writer. The guarantee is about any io.Writer; the common
+// concrete types are used too, because a render method can recognise them.
+var dests = []string{"", "buffer", "buffer-pre", "builder", "bufio"}
+
+func newSink(kind string) sink {
+	switch kind {
+	case "buffer":
+		b := &bytes.Buffer{}
+		return sink{b, b.Bytes}
+	case "buffer-pre":
+		// a buffer that already holds the caller's bytes, which have to survive
+		b := bytes.NewBufferString("PRE")
+		return sink{b, func() []byte {
+			if !bytes.HasPrefix(b.Bytes(), []byte("PRE")) {
+				return []byte("(the bytes the caller's buffer held before the call are gone) " + b.String())
+			}
+			return b.Bytes()[3:]
+		}}
+	case "builder":
+		b := &strings.Builder{}
+		return sink{b, func() []byte { return []byte(b.String()) }}
+	case "bufio":
+		c := &fw.Capture{}
+		bw := bufio.NewWriter(c)
+		return sink{bw, func() []byte { bw.Flush(); return c.Got }}
+	}
+	c := &fw.Capture{}
+	return sink{c, func() []byte { return c.Got }}
 }
 
 // rejecting is a node processor that fails when the nodes it is given contain an element
@@ -399,6 +441,9 @@ func classify(c Case) (bool, []string) {
 	if c.ErrKind != "" {
 		cls = append(cls, "writer-error="+c.ErrKind)
 	}
+	if c.Dest != "" && c.Mode != "failat" && c.Mode != "failnth" && c.Mode != "refuse" {
+		cls = append(cls, "dest="+c.Dest)
+	}
 	if c.InjectFile != "" {
 		cls = append(cls, "injected-failure")
 		if c.InjectFile != "page.vuego" {
@@ -436,6 +481,16 @@ func TestProp(t *testing.T) {
 				continue
 			}
 			each(Case{Prog: p.Name, Entry: e, Mode: "ref"})
+			// the other kinds of destination writer: failing programs, cancellation before and
+			// during the call, a rejecting processor
+			for di, d := range dests[1:] {
+				each(Case{Prog: p.Name, Entry: e, Mode: "ref", Dest: d})
+				each(Case{Prog: p.Name, Entry: e, Mode: []string{"cancel", "deadline"}[di%2], Dest: d})
+				if !p.Fails {
+					each(Case{Prog: p.Name, Entry: e, Mode: "cancelmid", K: di, Dest: d})
+					each(Case{Prog: p.Name, Entry: e, Mode: "procfail", K: di, Dest: d})
+				}
+			}
 			each(Case{Prog: p.Name, Entry: e, Mode: "cancel"})
 			each(Case{Prog: p.Name, Entry: e, Mode: "deadline", K: 0})
 			each(Case{Prog: p.Name, Entry: e, Mode: "deadline", K: 1})
@@ -445,6 +500,9 @@ func TestProp(t *testing.T) {
 			// injected failures: every file, start and end
 			for f := range p.Files {
 				if (e == "string" || e == "byte" || e == "reader") && strings.HasPrefix(f, "layouts/") {
+					continue
+				}
+				if !p.Reachable(f) {
 					continue
 				}
 				each(Case{Prog: p.Name, Entry: e, Mode: "ref", InjectFile: f, InjectEnd: false})
@@ -536,6 +594,7 @@ func TestProp(t *testing.T) {
 	run.Rapid(t, rec, "random", func(t *rapid.T) Case {
 		c := Case{Prog: rapid.SampledFrom(names).Draw(t, "prog"), Entry: rapid.SampledFrom(cat.Entries).Draw(t, "entry"), Mode: rapid.SampledFrom([]string{"ref", "failat", "cancel", "deadline", "failnth", "refuse", "cancelmid", "procfail"}).Draw(t, "mode")}
 		c.K = rapid.IntRange(0, 700).Draw(t, "k")
+		c.Dest = rapid.SampledFrom(dests).Draw(t, "dest")
 		if c.Mode == "failat" && rapid.Bool().Draw(t, "errkind?") {
 			c.ErrKind = rapid.SampledFrom(fw.ErrKinds).Draw(t, "errkind")
 		}
